@@ -258,6 +258,49 @@ def near_terms(tier: str):
     return out
 
 
+# ---------------------------------------------------------------- SCALE
+def scale_terms(tier: str):
+    """Widely different magnitudes inside one expression (all inside the double range): tiny and huge constant factors,
+    sums whose terms differ by 16-20 orders of magnitude, variable-free compounds with tiny / huge values."""
+    z = V("z")
+    out = []
+    fs = [Exp(x), Sin(x), NPow(x, 3), Log(Add(NPow(x, 2), C(1))), Root(Add(x, C(4)), 3), Mul(x, y)]
+    for c in (1e-20, 1e-17, 1e-12, 1e12, 1e20, -1e-18, 3e5):
+        for f in fs:
+            out.append(Mul(C(c), f))
+            out.append(Add(Mul(C(c), f), y))
+            out.append(Mul(y, f, C(c)))
+    out += [
+        Add(Mul(C(1e16), x), x, y), Add(Mul(C(3e5), NPow(x, 3)), Mul(C(0.1), x), Mul(C(0.7), x), Mul(C(1e-4), y), z),
+        Add(Mul(C(1e16), x), y, Mul(C(-1e16), x)), Add(x, Mul(C(1e-18), Sin(x)), y), Minus(Add(C(1e17), x), C(1e17)),
+        Mul(x, NPow(C(1e-5), 3)), Recip(Mul(x, NPow(C(1e-5), 3))), Add(x, Exp(C(-40))), Mul(x, Exp(C(-40))),
+        Log(Mul(x, NPow(C(0.5), 50))), Div(x, NPow(C(10), 15)), Mul(x, Root(C(1e-30), 3)), Add(x, NPow(C(0.001), 5)),
+        Mul(Exp(C(-30)), Exp(x)), Pow(Add(x, C(3)), NPow(C(0.01), 4)), Mul(x, Sin(C(1e-14))), Div(x, Exp(C(35))),
+    ]
+    return out
+
+
+# ---------------------------------------------------------------- TWICE
+def twice_terms(tier: str):
+    """Two-argument nodes whose two arguments are the same sub-term (in DAG mode: the same object), and
+    exponentials of products of logarithms of different bases."""
+    out = []
+    us = [Log(x), Recip(x), Root(x, 2), Exp(x), Neg(x), Add(x, y), NPow(x, 2), Sin(x), Log(C(-1)), x]
+    for u in us:
+        for tag in M.BINARY:
+            out.append((tag, u, u))
+        for tag in M.NARY:
+            out.append((tag, (u, u)))
+            out.append((tag, (u, y, u)))
+        out.append(Add(Minus(u, u), y))
+        out.append(Minus(x, Minus(u, u)))
+    bases = (2, 3, M.DEFAULT_BASE)
+    for b1, b2, b3 in itertools.product(bases, repeat=3):
+        out.append(Exp(Mul(Log(x, b1), Log(y, b2)), b3))
+        out.append(Exp(Mul(C(2), Log(x, b1)), b3))
+    return out
+
+
 # ---------------------------------------------------------------- BINBIN
 def binbin_terms(tier: str):
     """Every two-argument constructor directly over every two-argument constructor, on either side
@@ -278,7 +321,8 @@ def binbin_terms(tier: str):
 
 
 # ---------------------------------------------------------------- NAMES
-EXOTIC_NAMES = ["x1", "theta", "µ", "x²", "Å", "ﬁ", "é", "self", "1", "_", "ſ", "ｘ", "变量", "kwargs", "x₂"]
+EXOTIC_NAMES = ["x1", "theta", "µ", "x²", "Å", "ﬁ", "é", "self", "1", "_", "ſ", "ｘ", "变量", "kwargs", "x₂",
+                "coordinates", "point", "name", "args", "variable", "\U0001d465", "value", "other", "cls"]
 
 
 def fresh_str(s: str) -> str:
@@ -300,7 +344,7 @@ def names_terms(tier: str):
 
 # ---------------------------------------------------------------- NARY
 FACTOR_KINDS = [
-    C(0), C(1), C(2), C(-1), x, Neg(x), Recip(y), NPow(x, 2), NPow(y, 2), Root(x, 2), Root(y, 2),
+    C(0), C(1), C(2), C(-1), x, Neg(x), Neg(Add(x, y)), Add(Neg(x), Neg(y)), Recip(y), NPow(x, 2), NPow(y, 2), Root(x, 2), Root(y, 2),
     Root(x, 3), Exp(x), Exp(y), Exp(x, 2), Log(x), Log(y), Mul(x, y), Add(x, y),
 ]
 
